@@ -35,7 +35,7 @@ static int common(int a, int b) {
 enum { K_SLOT, K_CONST, K_BIN, K_UN, K_CAST, K_COND, K_COMMA, K_ASSIGNOP, K_INCDEC, K_CONVCTX, K_TRUTH };
 enum { O_ADD, O_SUB, O_MUL, O_DIV, O_MOD, O_AND, O_OR, O_XOR, O_SHL, O_SHR, O_LT, O_LE, O_GT, O_GE, O_EQ, O_NE, O_LAND, O_LOR,
        O_NEG, O_NOT, O_LNOT, O_POS, O_PREINC, O_PREDEC, O_POSTINC, O_POSTDEC };
-typedef struct { int k, a, b; int l, r, c; } MNode;   // a: op / type / slot ; b: type for slot/const ; children = indices
+typedef struct { int k; long a; int b; int l, r, c; } MNode;   // a: op / type / slot ; b: type for slot/const ; children = indices
 typedef struct { i128 v; int t; } MVal;
 
 static long m_slot[3];         // raw operand values (already representable in the slot type)
@@ -84,7 +84,7 @@ static MVal m_eval(const MNode *tab, int i, int *undef) {
   MVal x, y, z, r;
   switch (n->k) {
   case K_SLOT: r.t = n->b; r.v = ty_uns[n->b] ? (i128)(unsigned long)m_slot[n->a] : (i128)m_slot[n->a]; r.v = conv(r.v, n->b); return r;
-  case K_CONST: r.t = n->b; r.v = n->a; return r;
+  case K_CONST: r.t = n->b; r.v = conv(n->a, n->b); return r;   // a: the value's 64-bit pattern
   case K_CAST:
   case K_CONVCTX: x = m_eval(tab, n->l, undef); r.t = n->a; r.v = conv(x.v, n->a); return r;
   case K_TRUTH: x = m_eval(tab, n->l, undef); r.t = T_INT; r.v = x.v != 0; return r;
